@@ -32,7 +32,7 @@ from elementpath.datatypes import AbstractBinary, AbstractDateTime, AnyAtomicTyp
     Base64Binary, BooleanProxy, DateTime, DoubleProxy, DoubleProxy10, Duration, \
     Language, NumericProxy, Timezone, UntypedAtomic
 from elementpath.namespaces import XML_BASE, XPATH_FUNCTIONS_NAMESPACE
-from elementpath.helpers import collapse_white_spaces, is_xml_codepoint, \
+from elementpath.helpers import collapse_white_spaces, is_xml_codepoint, JSON_ESCAPE_PATTERN, \
     escape_json_string, unescape_json_string
 from elementpath.sequences import xlist
 from elementpath.etree import etree_iter_strings, is_etree_element
@@ -1155,13 +1155,9 @@ def evaluate__xml_to_json(self: XPathFunction, context: ta.ContextType = None) \
                 raise self.error('FOJS0006', f"{child} has an invalid attribute {name!r}")
 
         def check_escapes(s: str) -> None:
-            if re.search(r'(?<!\\)\\(?![urtnfb/"\\])', s):
+            # what is left after removing the valid escape sequences has no backslash
+            if '\\' in JSON_ESCAPE_PATTERN.sub('', s):
                 raise self.error('FOJS0007', f"invalid escape sequence in {s!r}")
-
-            hex_digits = '0123456789abcdefABCDEF'
-            for chunk in s.split('\\u')[1:]:
-                if len(chunk) < 4 or any(x not in hex_digits for x in chunk[:4]):
-                    raise self.error('FOJS0007', f"invalid unicode escape in {s!r}")
 
         for child in elements:
             if callable(child.tag):
@@ -1336,7 +1332,7 @@ def evaluate__json_to_xml(self: XPathFunction, context: ta.ContextType = None) \
             raise self.error('FOJS0005')
 
     def escape_string(s: str) -> str:
-        s = re.sub(r'\\(?!/)', r'\\\\', s)
+        s = s.replace('\\', r'\\')
         s = s.replace('\b', r'\b'). \
             replace('\r', r'\r'). \
             replace('\n', r'\n'). \
